@@ -58,6 +58,8 @@ package headers
 //@   ensures result1 == nil ==> len(rangeStr) >= 7 && rangeStr[0:6] == "bytes="
 //@   ensures result1 == nil ==> result0.start >= -1 && result0.end >= -1 && !(result0.start == -1 && result0.end == -1)
 //@   ensures result1 != nil ==> result0.start == 0 && result0.end == 0
+//@   ensures [C07] result1 == nil && result0.start == -1 ==> rangeStr[6] == '-' && (exists e int :: 0 < e && 7 + e <= len(rangeStr) && (forall j int :: 0 <= j && j < e ==> specIsDigit(rangeStr[7+j]) || specIsSp(rangeStr[7+j])) && (7 + e < len(rangeStr) ==> rangeStr[7+e] != ',' && rangeStr[7+e] != '-') && result0.end == specDecVal(rangeStr[7:], e))
+//@   ensures [C07] result1 == nil && result0.start >= 0 ==> (exists s int :: 0 < s && 6 + s < len(rangeStr) && rangeStr[6+s] == '-' && (forall j int :: 0 <= j && j < s ==> specIsDigit(rangeStr[6+j]) || specIsSp(rangeStr[6+j])) && result0.start == specDecVal(rangeStr[6:], s) && (result0.end == -1 <==> 6 + s + 1 == len(rangeStr)))
 
 // ---------------------------------------------------------------- Cache-Control / Expires
 
